@@ -101,10 +101,11 @@ func c15Build(prof [3]int, edges [3]int) (*Project, *c15Ref) {
 	names := []string{"a", "b", "c"}
 	profSets := [][]string{nil, {"p"}, {"q"}, {"p", "q"}}
 	p := &Project{Name: "n", Services: Services{}, DisabledServices: Services{},
-		Networks: Networks{"n1": {Name: "n1"}, "n2": {Name: "n2"}, "n3": {Name: "n3"}, "unused": {Name: "u"}},
-		Volumes:  Volumes{"v1": {Name: "v1"}, "v2": {Name: "v2"}, "unusedv": {Name: "uv"}},
-		Secrets:  Secrets{"s1": {Name: "s1", File: "/f"}, "s2": {Name: "s2", File: "/f"}, "unuseds": {Name: "us", File: "/f"}},
-		Configs:  Configs{"c1": {Name: "c1", File: "/f"}, "unusedc": {Name: "uc", File: "/f"}}}
+		// every kind also holds unreferenced resources that carry the name of a referenced resource of another kind
+		Networks: Networks{"n1": {Name: "n1"}, "n2": {Name: "n2"}, "n3": {Name: "n3"}, "unused": {Name: "u"}, "v1": {Name: "hn"}, "s1": {Name: "hn2"}},
+		Volumes:  Volumes{"v1": {Name: "v1"}, "v2": {Name: "v2"}, "unusedv": {Name: "uv"}, "n1": {Name: "hv"}, "c1": {Name: "hv2"}},
+		Secrets:  Secrets{"s1": {Name: "s1", File: "/f"}, "s2": {Name: "s2", File: "/f"}, "unuseds": {Name: "us", File: "/f"}, "c1": {Name: "hs", File: "/f"}, "n3": {Name: "hs2", File: "/f"}},
+		Configs:  Configs{"c1": {Name: "c1", File: "/f"}, "unusedc": {Name: "uc", File: "/f"}, "s1": {Name: "hc", File: "/f"}, "v2": {Name: "hc2", File: "/f"}}}
 	r := &c15Ref{enabled: map[string]bool{}, disabled: map[string]bool{}, profiles: map[string][]string{}, deps: map[string]map[string]bool{}}
 	for i, n := range names {
 		s := ServiceConfig{Name: n, Image: "i", Profiles: profSets[prof[i]], DependsOn: DependsOnConfig{}}
@@ -289,6 +290,23 @@ func VerifC15Selection() {
 			has(ok, eb, "c1")
 			_, ok = q.Configs["unusedc"]
 			has(ok, false, "unused-config")
+			// homonyms of referenced resources of another kind are not referenced themselves
+			_, ok = q.Networks["v1"]
+			has(ok, false, "network-named-like-a-volume")
+			_, ok = q.Networks["s1"]
+			has(ok, false, "network-named-like-a-secret")
+			_, ok = q.Volumes["n1"]
+			has(ok, false, "volume-named-like-a-network")
+			_, ok = q.Volumes["c1"]
+			has(ok, false, "volume-named-like-a-config")
+			_, ok = q.Secrets["c1"]
+			has(ok, false, "secret-named-like-a-config")
+			_, ok = q.Secrets["n3"]
+			has(ok, false, "secret-named-like-a-network")
+			_, ok = q.Configs["s1"]
+			has(ok, false, "config-named-like-a-secret")
+			_, ok = q.Configs["v2"]
+			has(ok, false, "config-named-like-a-volume")
 		}
 		if op == 1 {
 			// enabling activates the profiles of the service
